@@ -4,8 +4,14 @@
 package patch
 
 import (
+	"bytes"
 	"fmt"
+	"reflect"
 	"testing"
+	"unsafe"
+
+	"github.com/tencent/goom/zverif/vkit"
+	"pgregory.net/rapid"
 
 	"github.com/tencent/goom/zverif/c15kit"
 	"github.com/tencent/goom/zverif/x86eval"
@@ -67,4 +73,189 @@ func TestVerifC15(t *testing.T) {
 		},
 	}
 	c15kit.Run(t, "amd64-patch", []c15kit.Emitter{entry, ret})
+}
+
+// ---- guard histories: the jump a guard writes is the one that was emitted for it, whatever else was patched meanwhile ----
+
+//go:noinline
+func c15t0(x int) int { return c15pad(x) + 1 }
+
+//go:noinline
+func c15t1(x int) int { return c15pad(x) + 2 }
+
+//go:noinline
+func c15t2(x int) int { return c15pad(x) + 3 }
+
+//go:noinline
+func c15t3(x int) int { return c15pad(x) + 4 }
+
+//go:noinline
+func c15t4(x int) int { return c15pad(x) + 5 }
+
+//go:noinline
+func c15pad(x int) int { return x*10 + x/3 - x%7 }
+
+func c15r0(x int) int { return 1000 + x }
+func c15r1(x int) int { return 2000 + x }
+func c15r2(x int) int { return 3000 + x }
+func c15r3(x int) int { return 4000 + x }
+func c15r4(x int) int { return 5000 + x }
+func c15r5(x int) int { return 6000 + x }
+
+type guardOp struct {
+	K string `json:"k"` // patch | apply | unpatch | restore
+	I int    `json:"target"`
+	S int    `json:"replacement"`
+}
+
+type guardCase struct {
+	Ops []guardOp `json:"ops"`
+}
+
+func runGuards(ci interface{}, s *vkit.Stats) (err error) {
+	c := ci.(*guardCase)
+	targets := []func(int) int{c15t0, c15t1, c15t2, c15t3, c15t4}
+	repls := []func(int) int{c15r0, c15r1, c15r2, c15r3, c15r4, c15r5}
+	type st struct {
+		g       *Guard
+		repl    int
+		state   string // none | prepared | applied | unpatched
+		entry   uintptr
+		pristine []byte
+	}
+	ts := make([]*st, len(targets))
+	for i, f := range targets {
+		e := reflect.ValueOf(f).Pointer()
+		ts[i] = &st{state: "none", entry: e, pristine: append([]byte(nil), vkit.Bytes(e, 16)...)}
+	}
+	defer func() {
+		for _, t := range ts {
+			if t.g != nil {
+				t.g.UnpatchWithLock()
+			}
+		}
+		lock()
+		for k := range patches {
+			delete(patches, k)
+		}
+		unlock()
+		for i, t := range ts {
+			if err == nil && !bytes.Equal(vkit.Bytes(t.entry, 16), t.pristine) {
+				err = fmt.Errorf("after unpatching everything the entry of target %d reads % x, want % x", i, vkit.Bytes(t.entry, 16), t.pristine)
+			}
+		}
+	}()
+	check := func(step int, what string) error {
+		for i, t := range ts {
+			live := vkit.Bytes(t.entry, 16)
+			got := targets[i](5)
+			if t.state != "applied" {
+				if !bytes.Equal(live, t.pristine) {
+					return fmt.Errorf("step %d (%s): target %d is not diverted (%s) but its entry reads % x, want % x", step, what, i, t.state, live, t.pristine)
+				}
+				if want := c15pad(5) + i + 1; got != want {
+					return fmt.Errorf("step %d (%s): target %d is not diverted but returned %d, want %d", step, what, i, got, want)
+				}
+				continue
+			}
+			r, err := x86eval.EvalJump(live[:13], 64, uint64(t.entry))
+			if err != nil {
+				return fmt.Errorf("step %d (%s): entry of diverted target %d (% x): %v", step, what, i, live[:13], err)
+			}
+			if r.Kind != "abs" || r.Reg != refx86.RDX {
+				return fmt.Errorf("step %d (%s): entry of diverted target %d is %s through %v", step, what, i, r.Kind, r.Reg)
+			}
+			dest := *(*uintptr)(unsafe.Pointer(uintptr(r.RegValue)))
+			if want := reflect.ValueOf(repls[t.repl]).Pointer(); dest != want {
+				return fmt.Errorf("step %d (%s): target %d was diverted to replacement %d (%#x) but its entry jumps through %#x to %#x", step, what, i, t.repl, want, r.RegValue, dest)
+			}
+			if want := 1000*(t.repl+1) + 5; got != want {
+				return fmt.Errorf("step %d (%s): target %d diverted to replacement %d returned %d, want %d", step, what, i, t.repl, got, want)
+			}
+		}
+		return nil
+	}
+	interleaved, restored := false, false
+	lastPrepared := -1
+	for step, op := range c.Ops {
+		t := ts[op.I%len(ts)]
+		// the drawn kind is a wish; an operation that is not enabled in the target's state is replaced by one that is
+		kind := op.K
+		enabled := map[string][]string{"none": {"patch"}, "prepared": {"apply", "patch"}, "applied": {"unpatch"}, "unpatched": {"restore", "apply", "patch"}}[t.state]
+		ok := false
+		for _, e := range enabled {
+			ok = ok || e == kind
+		}
+		if !ok {
+			kind = enabled[op.S%len(enabled)]
+		}
+		what := fmt.Sprintf("%s target %d", kind, op.I%len(ts))
+		switch kind {
+		case "patch":
+			if t.state == "applied" {
+				continue
+			}
+			k := op.S % len(repls)
+			g, perr := Patch(targets[op.I%len(ts)], repls[k])
+			if perr != nil {
+				return fmt.Errorf("step %d (%s): Patch refused a pristine target: %v", step, what, perr)
+			}
+			t.g, t.repl, t.state = g, k, "prepared"
+			lastPrepared = op.I % len(ts)
+		case "apply":
+			if t.state != "prepared" && t.state != "unpatched" {
+				continue
+			}
+			if lastPrepared >= 0 && lastPrepared != op.I%len(ts) {
+				interleaved = true
+			}
+			t.g.Apply()
+			t.state = "applied"
+		case "unpatch":
+			if t.state != "applied" {
+				continue
+			}
+			t.g.UnpatchWithLock()
+			t.state = "unpatched"
+		case "restore":
+			if t.state != "unpatched" {
+				continue
+			}
+			t.g.Restore()
+			t.state = "applied"
+			restored = true
+		}
+		if cerr := check(step, what); cerr != nil {
+			return cerr
+		}
+	}
+	if interleaved {
+		s.Class("guards/apply-after-another-patch-was-prepared")
+	}
+	if restored {
+		s.Class("guards/restore-after-unpatch")
+	}
+	if interleaved || restored {
+		s.NonTrivial(fmt.Sprint(c.Ops))
+		s.Sample(c)
+	}
+	return nil
+}
+
+func TestVerifC15Guards(t *testing.T) {
+	p := &vkit.Prop{ID: "C15", Unit: "amd64-patch/guards", New: func() interface{} { return &guardCase{} },
+		Gen: func(rt *rapid.T) interface{} {
+			n := rapid.IntRange(2, 24).Draw(rt, "n")
+			c := &guardCase{}
+			for i := 0; i < n; i++ {
+				c.Ops = append(c.Ops, guardOp{K: rapid.SampledFrom([]string{"patch", "patch", "apply", "apply", "unpatch", "restore"}).Draw(rt, "k"),
+					I: rapid.IntRange(0, 4).Draw(rt, "target"), S: rapid.IntRange(0, 5).Draw(rt, "replacement")})
+			}
+			return c
+		},
+		Run: runGuards}
+	s := p.Main(t, vkit.Scale(3000, 60000))
+	if !vkit.Replaying() {
+		s.Done()
+	}
 }
